@@ -87,6 +87,7 @@ pub fn run(kind: &str, args: &[String]) -> i32 {
         "uuid" => uuids(&mut sink, &opts),
         "threads" => threads(&mut sink, &opts),
         "frameiter" => frameiter(&mut sink, &opts),
+        "recorditer" => recorditer(&mut sink, &opts),
         _ => {
             eprintln!("unknown trace kind {kind}");
             return 2;
@@ -1107,4 +1108,20 @@ fn frameiter(sink: &mut Sink, o: &Opts) {
             }
         }
     }
+}
+
+/// C05/C06: one whole file through the real iterator, one log line per yielded item
+fn recorditer(sink: &mut Sink, o: &Opts) {
+    let src = std::fs::read(&o.files[0]).expect("file");
+    let src = if o.rest.iter().any(|a| a == "--crlf") { String::from_utf8_lossy(&src).replace('\n', "\r\n").into_bytes() } else { src };
+    sink.emit(json!({"t": "file", "src": enc::bytes(&src)}));
+    let mut left = src.len() + 2;
+    for r in ProguardMapping::new(&src).iter() {
+        sink.emit(json!({"t": "item", "item": enc::record(&r)}));
+        left -= 1;
+        if left == 0 {
+            break;
+        }
+    }
+    sink.emit(json!({"t": "end"}));
 }
